@@ -133,6 +133,48 @@ func (p c09) misfit(c *core.Ctx) {
 	c.Nontrivial(fmt.Sprintf("misfit|%d|%v|%v|%s", kind, optional, plan, r.Outcome()))
 }
 
+// namedMisfit: a by-name point names a registered component whose type does not fit the field, while other
+// components that would fit are registered under other names: the point is unsatisfiable (it asked for that
+// name) - required: the start fails and no runner runs; optional: it stays empty.
+func (p c09) namedMisfit(c *core.Ctx) {
+	g := world.NewG(c.Rng)
+	g.AddNode([]int{2, 13}[c.Rng.Intn(2)], "b-thing") // an IB that is no IA
+	for x, nx := 0, 1+c.Rng.Intn(3); x < nx; x++ {
+		g.AddNode([]int{0, 1, 3, 6}[c.Rng.Intn(4)], g.FreshName(x)) // IAs under other names
+	}
+	h := g.AddNode(world.TypesEagerPlain[c.Rng.Intn(len(world.TypesEagerPlain))], g.FreshName(8))
+	g.AddNode(world.TypesRunner[c.Rng.Intn(len(world.TypesRunner))], g.FreshName(9))
+	optional := c.Rng.Intn(2) == 0
+	slot := []string{"IA0", "IA1", "P00"}[c.Rng.Intn(3)]
+	tag := "b-thing"
+	if optional {
+		tag += ",required=false"
+	}
+	g.SetTag(h, slot, "wire", tag)
+	g.ShuffleOrders()
+	r := world.Start(g.Sc, world.Options{})
+	c.Count("starts", 1)
+	c.Count("named_misfit_starts", 1)
+	detail := failDetail(g.Sc, r, map[string]any{"slot": slot, "optional": optional})
+	if abnormal(r.Outcome()) {
+		c.Fail("", "by-name point naming a component of an unfit type: "+core.Short(r.OutcomeDetail(), 300), detail)
+		return
+	}
+	refs, _ := r.SlotRefs(r.Nodes[h], slot)
+	filled := len(refs) == 1 && !refs[0].Nil
+	runs := countEvents(r, "run")
+	if optional {
+		if r.Outcome() != "ok" || filled {
+			c.Fail("", fmt.Sprintf("optional point %s `wire:%q`: the named component does not fit the field; outcome %s, field filled: %v (expected a successful start and an empty field)", slot, tag, r.Outcome(), filled), detail)
+			return
+		}
+	} else if r.Outcome() != "error" || runs != 0 {
+		c.Fail("", fmt.Sprintf("required point %s `wire:%q`: the named component does not fit the field (others that would fit carry other names), but App.Run returned %s, %d runner(s) ran, field filled: %v", slot, tag, r.Outcome(), runs, filled), detail)
+		return
+	}
+	c.Nontrivial(fmt.Sprintf("namedmisfit|%s|%v|%s", slot, optional, g.Sc.GraphSig()))
+}
+
 // mixin: required points that a component takes from a package-private embedded mix-in fail the start
 // like any other required point.
 func (p c09) mixin(c *core.Ctx) {
@@ -371,6 +413,10 @@ func (p c09) Run(c *core.Ctx) {
 	}
 	if c.Index%20 == 1 {
 		p.optionalSelectors(c)
+		return
+	}
+	if c.Index%20 == 16 {
+		p.namedMisfit(c)
 		return
 	}
 	if c.Index%5 == 4 {
